@@ -247,3 +247,21 @@ def as_models(texts):
         out += [l for l in t.splitlines() if l[:3] not in ("END", "MOD")]
         out.append("ENDMDL")
     return "\n".join(out) + "\nEND\n"
+
+
+def truncated_side_chains(text, skip=1):
+    """a poorly resolved structure: of the (skip+1)-th ASP, GLU, ARG, HIS of the ATOM records the atoms beyond the group-defining atom are
+    removed (carboxyl oxygens, guanidinium nitrogens, two ring atoms); the defining atoms CG / CD / CZ / ring stay. -> (text, [residue descriptions])"""
+    drop = {"ASP": ("OD1", "OD2"), "GLU": ("OE1", "OE2"), "ARG": ("NE", "NH1", "NH2"), "HIS": ("CE1", "NE2")}
+    seen, chosen = {}, {}
+    for r in residues(text):
+        if r["tag"] == "ATOM  " and r["name"] in drop:
+            seen[r["name"]] = seen.get(r["name"], 0) + 1
+            if seen[r["name"]] == skip + 1:
+                chosen[(r["chain"], r["num"], r["icode"])] = r["name"]
+    out = []
+    for l in text.splitlines():
+        if is_atom(l) and (l[21], l[22:26], l[26]) in chosen and l[12:16].strip() in drop[chosen[(l[21], l[22:26], l[26])]]:
+            continue
+        out.append(l)
+    return "\n".join(out) + "\n", [f"{v}{k[1].strip()}{k[0]}" for k, v in chosen.items()]
